@@ -303,6 +303,9 @@ func (store *HStore) GC(bucketID, beginChunkID, endChunkID, noGCDays int, merge,
 	if err = checkGC(); err != nil {
 		return
 	}
+	if utils.VerifOn {
+		utils.Verif("g.request", bucketID, beginChunkID, endChunkID, pretend)
+	}
 
 	begin, end, err = bkt.gcCheckRange(beginChunkID, endChunkID, noGCDays)
 	if err != nil {
